@@ -221,7 +221,11 @@ def conformance(chk):
         bad_all += [{'id': f'{kname}-{i}', 'kernel': kname, **b} for i, b in enumerate(bad[:3])]
     for kname, ename in (('energy_transfer_direct_from_tof', 'incident_energy'), ('energy_transfer_indirect_from_tof', 'final_energy')):
         sp = {'tof': ('time', dts, 'scalar'), 'L1': ('length', dts, 'scalar'), 'L2': ('length', dts, 'scalar'), ename: ('energy', dts, 'scalar')}
-        cases, bad = compare(sc, getattr(real, kname), getattr(model, kname), sp, n, seed=chk.seed * 1000 + 7)
+        try:
+            cases, bad = compare(sc, getattr(real, kname), getattr(model, kname), sp, n, seed=chk.seed * 1000 + 7)
+        except core.Unsupported as e:
+            chk.extra.setdefault('conformance_skipped', []).append(f'{kname}: {str(e)[:120]}')
+            continue
         total += cases
         bad_all += [{'id': f'{kname}-{i}', 'kernel': kname, **b} for i, b in enumerate(bad[:3])]
     chk.extra['model_conformance'] = {'cases': total, 'disagreements': len(bad_all)}
